@@ -1,6 +1,6 @@
 (* C04 - a synchronous call returns the server's reply to that very call (I/O-thread side: routing).
    This file only pins statements. *)
-From Amq Require Import Lib.Base Gen.Consts Model.Wire Model.Frames Model.OutBuf Model.Collector Model.Slots Model.Core Spec.Slots Spec.Content Proofs.Slots Proofs.OutBuf Proofs.Collector Proofs.CoreContent Proofs.CoreInv Proofs.CoreMore Model.Handle Proofs.Handle Model.Sys Proofs.Sys Proofs.SysRefine.
+From Amq Require Import Lib.Base Gen.Consts Model.Wire Model.Frames Model.OutBuf Model.Collector Model.Slots Model.Core Spec.Slots Spec.Content Proofs.Slots Proofs.OutBuf Proofs.Collector Proofs.CoreContent Proofs.CoreInv Proofs.CoreMore Model.Handle Proofs.Handle Model.Sys Proofs.Sys Proofs.SysRefine Proofs.SysLive.
 
 (* A reply-class frame (the 13 -Ok methods with all their fields, Get-Empty) on channel n is appended, unchanged, to the reply queue of slot n; the resulting state differs from the old one in that queue ONLY (set_qs c (pushed ...)): no other queue, slot, buffer or phase changes, for every n, every reply, every state *)
 Theorem C04_routing : forall (n : N) (m : smethod) (dbg : str) (c : core) (s : slot), steady c -> n <> 0 -> alookup n (c_slots c) = Some s -> is_reply m -> has_room (s_reply s) (c_qs c) -> process c (FMethod n m, dbg) = (OOk, set_qs c (pushed (s_reply s) (reply_item m) (c_qs c))).
@@ -41,6 +41,10 @@ Proof. exact sys_reply_queue_never_full. Qed.
 (* NOBODY WAITS FOR NOTHING: in every reachable state, a blocked caller's one outstanding item is in one of the six stages (reply queue, inbound wire, server, outbound wire, out-buffer, mailbox) and the action that moves it on is enabled: no reachable state is a deadlock *)
 Theorem C04_system_waiting_progress : forall (answer : N -> N -> N) (bound qcap : N) (progs : N -> list call), 1 <= qcap -> forall (sched : list act) (n : N), let s := yrun answer bound qcap (init_sys progs) sched in yc_wait (y_ch s n) = true -> yc_replyq (y_ch s n) <> [] \/ y_inwire s <> [] \/ yc_pend (y_ch s n) <> [] \/ y_outwire s <> [] \/ y_outbuf s <> [] \/ yc_mail (y_ch s n) <> [].
 Proof. exact sys_waiting_progress. Qed.
+
+(* BLOCKS UNTIL THE REPLY ARRIVES - AND IT CAN ALWAYS ARRIVE: from every reachable state of the system in which the I/O thread lives and caller n is blocked there is a continuation (drain n's mailbox, write the out-buffer, let the server read and answer, read the replies - each of which finds room in its queue -, receive) that does not contain the I/O thread's end and after which caller n has returned: the system has no deadlock and no lost wake-up at the level of the protocol (the wake-up discipline underneath is C18_wake_invariant) *)
+Theorem C04_system_never_stuck : forall (answer : N -> N -> N) (bound qcap : N) (progs : N -> list call), 1 <= qcap -> forall (sched : list act) (n : N), let s := yrun answer bound qcap (init_sys progs) sched in y_dead s = false -> yc_wait (y_ch s n) = true -> exists cont : list act, ~ In ADie cont /\ yc_wait (y_ch (yrun answer bound qcap s cont) n) = false.
+Proof. exact sys_never_stuck. Qed.
 
 (* the system's I/O actions ARE steps of the I/O-thread model (which the CoreProbe ties to the real code). ARead: processing a reply-class frame of channel n, with at most one item queued (the system invariant), appends the reply to n's reply queue; every other reply queue, every mailbox, the out-buffer and the phase are unchanged *)
 Theorem C04_io_read_is_ARead : forall (n : N) (m : smethod) (dbg : str) (c : core), steady c -> n <> 0 -> is_reply m -> reply_queue_ok c n -> reply_queues_distinct c -> (length (view_replyq c n) <= 1)%nat -> exists c' : core, process c (FMethod n m, dbg) = (OOk, c') /\ view_replyq c' n = view_replyq c n ++ [reply_item m] /\ (forall k : N, k <> n -> view_replyq c' k = view_replyq c k) /\ (forall k : N, view_mail c' k = view_mail c k) /\ c_out c' = c_out c /\ c_phase c' = c_phase c.
@@ -93,6 +97,7 @@ Check C04_verdict_reported : forall (c : hcall) (e : N) (rest : list hitem) (s :
 Check C04_system_own_reply : forall (answer : N -> N -> N) (bound qcap : N) (progs : N -> list call), 1 <= qcap -> forall sched : list act, let s := yrun answer bound qcap (init_sys progs) sched in y_fail s = false /\ (forall n : N, let c := y_ch s n in yc_results c = map (answer n) (firstn (length (yc_results c)) (syncs (yc_issued c))) /\ (yc_wait c = false -> yc_failed c = false -> yc_results c = map (answer n) (syncs (yc_issued c))) /\ (yc_wait c = true -> exists r : N, syncs (yc_issued c) = firstn (length (yc_results c)) (syncs (yc_issued c)) ++ [r] /\ inflight answer s n = [answer n r]) /\ (yc_failed c = false -> (length (yc_replyq c) <= 1)%nat) /\ yc_issued c ++ yc_prog c = progs n /\ (yc_failed c = true -> y_dead s = true)).
 Check C04_system_reply_queue_never_full : forall (answer : N -> N -> N) (bound qcap : N) (progs : N -> list call), 1 <= qcap -> forall sched : list act, y_fail (yrun answer bound qcap (init_sys progs) sched) = false.
 Check C04_system_waiting_progress : forall (answer : N -> N -> N) (bound qcap : N) (progs : N -> list call), 1 <= qcap -> forall (sched : list act) (n : N), let s := yrun answer bound qcap (init_sys progs) sched in yc_wait (y_ch s n) = true -> yc_replyq (y_ch s n) <> [] \/ y_inwire s <> [] \/ yc_pend (y_ch s n) <> [] \/ y_outwire s <> [] \/ y_outbuf s <> [] \/ yc_mail (y_ch s n) <> [].
+Check C04_system_never_stuck : forall (answer : N -> N -> N) (bound qcap : N) (progs : N -> list call), 1 <= qcap -> forall (sched : list act) (n : N), let s := yrun answer bound qcap (init_sys progs) sched in y_dead s = false -> yc_wait (y_ch s n) = true -> exists cont : list act, ~ In ADie cont /\ yc_wait (y_ch (yrun answer bound qcap s cont) n) = false.
 Check C04_io_read_is_ARead : forall (n : N) (m : smethod) (dbg : str) (c : core), steady c -> n <> 0 -> is_reply m -> reply_queue_ok c n -> reply_queues_distinct c -> (length (view_replyq c n) <= 1)%nat -> exists c' : core, process c (FMethod n m, dbg) = (OOk, c') /\ view_replyq c' n = view_replyq c n ++ [reply_item m] /\ (forall k : N, k <> n -> view_replyq c' k = view_replyq c k) /\ (forall k : N, view_mail c' k = view_mail c k) /\ c_out c' = c_out c /\ c_phase c' = c_phase c.
 Check C04_io_drain_is_ADrain : forall (n : N) (bufs : list bytes) (c : core) (s : slot), n <> 0 -> alookup n (c_slots c) = Some s -> s_mail s = map MsgSend bufs -> s_mail_tx s = true -> ob_sealed (c_out c) = false -> exists (c' : core) (k : nat), handle_event c (EvChan n) = (OOk, c', []) /\ view_mail c' n = map MsgSend (skipn k bufs) /\ ob (c_out c') = ob (c_out c) ++ concat (firstn k bufs) /\ (forall j : N, j <> n -> view_mail c' j = view_mail c j) /\ c_qs c' = c_qs c /\ c_phase c' = c_phase c.
 Check C04_io_write_is_AWrite : forall (c : core) (oracle : list wr) (bs : bytes) (wr0 : wres) (ob' : outbuf) (rest : list wr), write_to_stream (c_out c) oracle = (bs, wr0, ob', rest) -> wr0 = WOk -> exists c' : core, handle_event c (EvStream (Some oracle) None) = (OOk, c', bs) /\ bs ++ ob (c_out c') = ob (c_out c) /\ (forall k : N, view_mail c' k = view_mail c k) /\ (forall k : N, view_replyq c' k = view_replyq c k).
@@ -107,6 +112,7 @@ Print Assumptions C04_verdict_reported.
 Print Assumptions C04_system_own_reply.
 Print Assumptions C04_system_reply_queue_never_full.
 Print Assumptions C04_system_waiting_progress.
+Print Assumptions C04_system_never_stuck.
 Print Assumptions C04_io_read_is_ARead.
 Print Assumptions C04_io_drain_is_ADrain.
 Print Assumptions C04_io_write_is_AWrite.
